@@ -64,6 +64,14 @@ def extremes(tf):
                                                                                P(time=T0 + timedelta(seconds=64), fields={"a": 2})])),
         ("update every point to a tag value outside ASCII", lambda db: db.update_all(tags={"city": "Z\u00fcrich"})),
     ]
+    ops += [
+        # values the validators reject although they are falsy and unhashable: rejected BEFORE anything is written
+        ("insert a point whose tag value is an empty list", lambda db: db.insert(P(time=T0 + timedelta(seconds=65), tags={"labels": []}, fields={"a": 1}))),
+        ("insert a point whose tag value is an empty dict", lambda db: db.insert(P(time=T0 + timedelta(seconds=66), tags={"labels": {}}, fields={"a": 1}))),
+        ("update every point to a tag value that is an empty list", lambda db: db.update_all(tags={"labels": []})),
+        ("update every point with a callable returning a tag value that is an empty set", lambda db: db.update_all(tags=lambda t_: {"labels": set()})),
+        ("update every point to a field value that is an empty list", lambda db: db.update_all(fields={"x": []})),
+    ]
     follow = [
         ("an update whose callable raises at the last point", raising_late),
         ("an ordinary insert (earlier time)", lambda db: db.insert(P(time=T0 - timedelta(seconds=5), tags={"f": "1"}, fields={"a": 5}))),
@@ -177,6 +185,10 @@ def direct_exceptions(ck, tf, pid="C11"):
                             d = tempfile.mkdtemp(dir=str(ck.work))
                             db = tf.TinyFlux(os.path.join(d, "db.csv"), auto_index=auto) if csv else tf.TinyFlux(storage=MemoryStorage, auto_index=auto)
                             try:
+                                if not csv and size == 5:
+                                    # the FIRST stored point holds values a round trip through the row format would not give back (MemoryStorage keeps
+                                    # objects, nothing is serialised): an int beyond 2**53, the tag value "_none", the empty measurement
+                                    db.insert(tf.Point(time=T0 - timedelta(seconds=10), measurement="", tags={"k": "_none", "pad": "_none"}, fields={"a": 2 ** 53 + 1}))
                                 db.insert_multiple([tf.Point(time=T0 + timedelta(seconds=i), measurement="m", tags={"k": str(i), "pad": "x" * 20}, fields={"a": float(i)})
                                                     for i in range(size)])
                                 if not csv and size == 5:
@@ -185,6 +197,7 @@ def direct_exceptions(ck, tf, pid="C11"):
                                     db.insert(tf.Point(time=T0 + timedelta(seconds=1), measurement="m", tags=ReadOnlyMapping({"k": "1", "pad": "x" * 20}),
                                                        fields=ReadOnlyMapping({"a": 1.0})))
                                     db.reindex()
+
                                 before = snapshot(db)
                                 at = size // 2 if where == "middle" else size
                                 c = [0]
